@@ -54,10 +54,12 @@ come from and what else a task stores to: -/
 
 /-- in both drivers every task selects its part of every region with `region[tuple(flattened_slice)]`, the slice being built
 from that task's own sub-cube coordinates only, and stores to nothing shared except the diagnostic counters the property
-names (`intersection_data_points`, the tracing dict) -/
+names (`intersection_data_points`, the tracing dict); and nothing in `calculate` READS those counters except their own
+bookkeeping, so a lost update between two workers (they are updated without a lock) cannot steer a result or raise -/
 theorem generated_tasks_share_only_diagnostics :
     Gen.ccubeDriver.sharedStores.all (fun s => ["intersection_data_points"].contains s) = true ∧
     Gen.xcubeDriver.sharedStores.all (fun s => ["_tracing"].contains s) = true ∧
+    Gen.ccubeDriver.diagnosticReads = [] ∧ Gen.xcubeDriver.diagnosticReads = [] ∧
     Gen.ccubeDriver.viewSelection = ["regions = [region[tuple(flattened_slice)] for region in regions]"] ∧
     Gen.xcubeDriver.viewSelection = ["regions = [region[tuple(flattened_slice)] for region in regions]"] ∧
     Gen.ccubeDriver.flattened = ["[e for coords in subcube_coords for e in coords]"] ∧
